@@ -51,9 +51,10 @@ H(P, "c20", "c20_floor", ALL4, "every f32 with |x| < 2^31", "r integral, r <= x 
 H(P, "c20", "c20_floor_huge", ("bare", "libm", "std"), "every f32 bit pattern with not(|x| < 2^31): huge, +-inf, NaN", "floor(x) == x, no panic", est=5)
 H(P, "c20", "c20_floor_total", ("mm",), "every f32 bit pattern", "no panic", est=5)
 H(P, "c20", "c20_abs", ALL4, "every f32 bit pattern", "bits(abs x) == bits(x) & 0x7fffffff", est=2)
-H(P, "c20", "c20_sqrt", ("mm", "std"), "every f32 x in [1, 4)", "y>=0, |y*y-x| <= tol*x (2 ulp std, 4e-3 mm)", est=120,
+H(P, "c02", "c02_round_up_to_half", ALL4, "every f32 in [-0.5, 2^22): pixel rounding in every configuration", "smallest half-integer strictly above x (identical rule in all four configurations)", est=5)
+H(P, "c20", "c20_sqrt", ("mm", "std"), "x in [1, 4): quick = 8 leading mantissa bits (512 values, solver-decided); thorough = every float", "y>=0, |y*y-x| <= tol*x (2 ulp std, 4e-3 mm)", est=120,
   assumes=["cfg std: Kani's sqrtf32 intrinsic model (CBMC built-in, IEEE correctly rounded)"])
-H(P, "c20", "c20_recip_sqrt", ("bare", "mm"), "every f32 x in [1, 4)", "|y*y*x - 1| <= 5e-3", est=120)
+H(P, "c20", "c20_recip_sqrt", ("bare", "mm"), "x in [1, 4): quick = 8 leading mantissa bits; thorough = every float", "|y*y*x - 1| <= 5e-3", est=120)
 
 # ---------------------------------------------------------------- manifest texts
 ENGINE = {}
@@ -212,9 +213,10 @@ LEVEL_TEXT[P] = ("Bounded model checking: the per-fragment perspective division 
                  "interpolation through tri_fill is decided exactly on the lattice for every affine attribute plane with small integer coefficients.")
 H(P, "c05", "c05_fragments_f32", ("bare",), "arbitrary Scanline<f32>: n<=4, start/step finite floats, z0 in [1e-3,1e3]", "fragment k at start+k*step; var == stepped value / own z, bitwise", unwind=6, est=120)
 H(P, "c05", "c05_fragments_compound", ("bare",), "Scanline<(f32,Vec3)>, <Vec2>, <Color3f>, <()>: n<=2, finite floats", "every component divided by the fragment's own z; () passes through", unwind=4, est=1200, cap=2700, tiers=("thorough",))
-H(P, "c05", "c05_fragments_color", ("bare",), "Scanline<Color3f>, one fragment, finite floats", "every colour channel divided by the fragment's own z", unwind=4, est=120)
-H(P, "c05", "c05_fragments_vec", ("bare",), "Scanline<Vec2> and <(f32,Vec3)>, one fragment, finite floats", "every component divided by the fragment's own z", unwind=4, est=120)
-H(P, "c05", "c05_scan_affine", ("bare",), "one lattice trapezoid (2x2 grid) through scan(), attribute = integer plane at the corners", "fragment at its pixel centre (y exact, x 1e-3), z == 1, var == plane(centre) within 1e-3", unwind=6, est=400, cap=1200)
+H(P, "c05", "c05_fragments_color", ("bare",), "Scanline<Color3f>, two fragments, arbitrary finite channels and steps, reciprocal depths 2^k", "every colour channel divided by the fragment's own z (exactly)", unwind=4, est=120)
+H(P, "c05", "c05_fragments_vec", ("bare",), "Scanline<Vec2>, <(f32,Vec3)>, <()>, arbitrary finite components, reciprocal depth 2^k", "every component divided by the fragment's own z (exactly); () passes through", unwind=4, est=120)
+H(P, "c05", "c05_scan_depth", ("bare",), "one lattice trapezoid (2x2 grid) through scan(), reciprocal depth an affine function of position", "fragment depth == plane(pixel centre) within 1e-3", unwind=6, est=400, cap=1200)
+H(P, "c05", "c05_scan_affine", ("bare",), "one lattice trapezoid (2x2 grid) through scan(), attribute = integer plane at the corners", "fragment at its pixel centre (y exact, x 1e-3), z == 1, var == plane(centre) within 1e-3", unwind=6, est=2000, cap=2700, tiers=("thorough",))
 for y in range(5):
     H(P, "c05", f"c05_affine_g2_y{y}", ("bare",), f"lattice triangles (first-vertex y = {y}/2) x integer attribute planes", "fragment at its pixel centre (y exact, x 1e-3), z == 1 and var == plane(centre) within 1e-3, finite", unwind=6, est=1300, cap=2700, tiers=("thorough",))
 
@@ -224,7 +226,8 @@ BOUNDS[P] = "two arbitrary spans on one row of a 3-px Framebuf, arbitrary float 
 OUTSIDE[P] = ["order independence of whole triangles through render() (pipeline not encodable); it follows from the per-pixel commutativity only by induction over the fragment stream", "more than two overlapping fragments per pixel in one query", "depth_sort on more than 3 triangles or on ties"]
 LEVEL_TEXT[P] = ("Bounded model checking of the write step: Framebuf::rasterize of two arbitrary overlapping spans commutes (depth always, colour unless an exact tie), each pixel keeps the nearest fragment; "
                  "depth_test semantics for all float pairs; depth_sort (via cfg(kani) hook) yields the documented order.")
-H(P, "c06", "c06_two_spans_commute", ("bare",), "two arbitrary spans (x0,n,z0,dz,colour) on a 3-px row", "A;B == B;A (depth always, colour unless exact tie); pixel == nearest covering fragment; no NaN", unwind=5, est=500, cap=1500)
+H(P, "c06", "c06_two_spans_commute", ("bare",), "two arbitrary spans (x0,n,z0,dz,colour) on a 3-px row", "A;B == B;A (depth always, colour unless exact tie); no NaN", unwind=5, est=500, cap=1500)
+H(P, "c06", "c06_nearest_wins", ("bare",), "two arbitrary spans, a symbolic pixel", "the pixel holds the larger reciprocal depth among the covering fragments and that fragment's colour; failing fragments write nothing", unwind=5, est=500, cap=1500)
 H(P, "c06", "c06_depth_test_semantics", ("bare",), "every (new, curr) float pair incl. NaN/inf x {None, Less, Equal, Greater}", "None passes; Less <=> new > curr (reciprocal depth); default is Less", est=5)
 H(P, "c02", "c06_depth_sort_orders", ("bare",), "3 triangles, distinct integer depth sums in [-8,8], both sort directions", "permutation; FrontToBack ascending, BackToFront descending", unwind=8, est=60,
   assumes=["reached through the cfg(kani) hook render::verif_hooks::depth_sort (a plain wrapper)"])
@@ -240,7 +243,7 @@ H(P, "c06", "c07_colorbuf_flags", ("bare",), "colour-only target = strided sub-v
 H(P, "c06", "c07_stats_add", ("bare",), "all counters symbolic < 2^31", "Stats += Stats and Throughput += Throughput add component-wise", unwind=18, est=30)
 H(P, "c02", "c07_backface_orientation", ("bare",), "all triangles on the half-pixel lattice of a 64x64 screen (129^6 tuples)", "is_backface == sign of exact integer orientation; swap flips, rotation keeps; degenerate is neither", est=300, cap=900,
   assumes=["reached through the cfg(kani) hook render::verif_hooks::is_backface (a plain wrapper)"])
-H(P, "c02", "c07_backface_antisymmetric", ("bare",), "all finite float triangles |c| <= 1e6", "the two vertex orders are never both backfaces", est=60)
+H(P, "c02", "c07_backface_antisymmetric", ("bare",), "all finite float triangles |c| <= 1e6", "the two vertex orders are never both backfaces", est=1500, cap=2700, tiers=("thorough",))
 
 # ---------------------------------------------------------------- C02
 P = "C02"
@@ -249,8 +252,11 @@ OUTSIDE[P] = ["the clipper's guarantee |x|,|y|,|z| <= w (C03, not decidable here
 LEVEL_TEXT[P] = ("Bounded model checking of the units that index buffers unchecked: the half-pixel rounding rule (all floats), the margin lemma through scan() on arbitrary floats near a viewport border, "
                  "tri_fill on the lattice (no panic, in grid), and Target::rasterize writing only the addressed span. The composed pipeline is not claimed.")
 H(P, "c02", "c02_round_up_to_half", ALL4, "every f32 in [-0.5, 2^22)", "half-integer, >= x, within 1 of x, index == floor", est=5)
-H(P, "c02", "c02_scan_margin", ("bare", "std"), "arbitrary float trapezoid <= 3 rows, edges within 1e-3 of a pixel rectangle [l,r)x[t,b) in 64x64", "t <= y < b; l <= xs.start; max(xs.start,xs.end) <= r; rows increasing", unwind=5, est=600, cap=1500)
+H(P, "c02", "c02_scan_margin_1row", ("bare",), "arbitrary float trapezoid at most one pixel tall, edges within 1e-3 of a pixel rectangle [l,r)x[t,b) in 64x64", "t <= y < b; l <= xs.start; max(xs.start,xs.end) <= r", unwind=4, est=2400, cap=2700, tiers=("thorough",))
+H(P, "c02", "c02_scan_margin", ("bare", "std"), "arbitrary float trapezoid <= 3 rows, edges within 1e-3 of a pixel rectangle [l,r)x[t,b) in 64x64", "t <= y < b; l <= xs.start; max(xs.start,xs.end) <= r; rows increasing", unwind=5, est=2400, cap=2700, tiers=("thorough",))
 H(P, "c04", "c04_degenerate_g2", ("bare",), "all zero-area lattice triangles", "no panic (partial_cmp().unwrap() included), in grid", unwind=6, est=200, cap=900)
+for y in range(5):
+    H(P, "c04", f"c04_cover_g2_y{y}", ("bare",), f"all lattice triangles of the 2x2 grid (vertices on the grid border included) with first-vertex y = {y}/2", "no panic; every scanline has y < 2 and xs.end <= 2 (plus the C04 coverage oracle)", unwind=6, est=250, cap=900)
 H(P, "c06", "c07_framebuf_flags", ("bare",), "arbitrary span / flags (see C07)", "only row y, columns xs of both buffers change; depth buffer NaN-free", unwind=8, est=500, cap=1500)
 
 # ---------------------------------------------------------------- C09
@@ -323,3 +329,42 @@ LEVEL_TEXT[P] = ("Bounded model checking of the unit conversions (round trips wi
 H(P, "c18", "c18_unit_round_trips", ("bare",), "every finite a with |a| in [1e-6, 1e6]", "rads exact; degs/turns round trips within 4 ulp; FULL/STRAIGHT/RIGHT consistent", est=300, cap=900)
 H(P, "c18", "c18_cross_conversion", ("bare",), "turns = k/64, |k| <= 4096", "turns(x) and degs(360x) within 4 ulp in radians and back", est=120, cap=900)
 H(P, "c18", "c18_ops_on_magnitude", ("bare",), "all non-NaN float triples", "+,-,neg,*,/,min,max,clamp, Affine, Linear act on the radian value bitwise", est=60)
+
+
+def _float_props_external(prop):
+    def run(tier, scratch, say):
+        import importlib.util, os
+        spec = importlib.util.spec_from_file_location("float_props", os.path.join(os.path.dirname(os.path.abspath(__file__)), "smt", "float_props.py"))
+        m = importlib.util.module_from_spec(spec)
+        spec.loader.exec_module(m)
+        r = m.obligations(prop, tier, scratch, say)
+        for x in r:
+            x.pop("model", None)
+        return r
+    return run
+
+
+EXTERNAL["C20"] = _float_props_external("C20")
+EXTERNAL["C18"] = _float_props_external("C18")
+TECHNIQUE["C20"] = "bounded model checking (Kani/CBMC) of floor/abs/sqrt/recip_sqrt in 4 feature configurations; rem_euclid by symbolic execution of rustc MIR into SMT-LIB (IEEE-754 theory, fmod from fp.rem) decided by cvc5, translation validated against native runs"
+TECHNIQUE["C18"] = "bounded model checking (Kani/CBMC) of conversions and operators; Angle::wrap by symbolic execution of rustc MIR into SMT-LIB floats decided by cvc5, translation validated against native runs"
+EXTRA_ENGINES.append({"name": "mir2smt-cvc5", "path": "smt/mir2smt.py", "serves_properties": ["C18", "C20"],
+                      "kind_free_text": "symbolic executor for loop-free scalar rustc MIR (dumped from /repo on every run) producing SMT-LIB over IEEE-754 floats and bit-vectors; cvc5 1.0 decides; every run first validates the translation bit-for-bit on 256 native test vectors; counterexamples are replayed natively"})
+OUTSIDE["C20"] = [x for x in OUTSIDE["C20"] if not x.startswith("rem_euclid off the dyadic lattice")] + [
+    "rem_euclid with |x| > 1024*m (the range query is posed for quotients up to 2^10), and its congruence off the dyadic lattice",
+    "rem_euclid of the std and micromath backends (core / third-party code; the fallback implementation is what libm and no-feature builds use)"]
+BOUNDS["C20"] += "; rem_euclid (SMT): range for every finite x, m>0 with |x| <= 1024 m; congruence on the dyadic lattice"
+BOUNDS["C18"] += "; wrap (SMT): range for all finite a, lo<hi with |.| <= 4096 rad and hi-lo >= 2^-10; congruence on the dyadic lattice"
+OUTSIDE["C18"] = [x for x in OUTSIDE["C18"] if not x.startswith("wrap()")] + ["wrap with angles beyond 4096 rad or intervals narrower than 2^-10; wrap under std/mm (core's / micromath's rem_euclid)"]
+
+
+EXTERNAL["C16"] = _float_props_external("C16")
+TECHNIQUE["C16"] = "bounded model checking (Kani/CBMC) of the integer colour kernels over their whole domains; float HSL<->RGB by symbolic execution of rustc MIR into SMT-LIB floats decided by cvc5, translation validated against native runs"
+EXTRA_ENGINES[-1]["serves_properties"] = ["C16", "C18", "C20"]
+OUTSIDE["C16"] = ["to_linear / to_srgb (powf)",
+                  "float HSL<->RGB off the dyadic lattices in the quick tier (hue k/32, other channels k/8); the thorough tier poses the same queries over every float in [0,1]^3 under a cap and may stay inconclusive there",
+                  "float round trip for colours finer than the k/16 lattice",
+                  "to_hsla/to_rgba agreement with the 3-channel conversions off the 6-step channel lattice"]
+BOUNDS["C16"] += "; float HSL->RGB (SMT): no panic and grays for every float, range / channel order per sextant / hue 1 == hue 0 on h=k/32, s,l=k/8; float RGB->HSL (SMT): range on k/8, grays and the sub-2^-24 region for every float; round trip <= 1e-4 on k/8 (quick) / k/16 (thorough)"
+LEVEL_TEXT["C16"] = ("Bounded model checking of the integer colour kernels over their complete input spaces (2^24 triples, 2^32 words, all floats for clamping), each decided by the SAT solver; "
+                     "the float HSL conversions, which go through float %, are executed symbolically from rustc MIR into SMT-LIB and decided by cvc5 on dyadic lattices that contain every sextant boundary and interior.")
